@@ -123,6 +123,10 @@ def run_jobs(jobs, njobs, progress=None, wall=None, stop_on_prop=None):
                     results[i] = {'skipped': True}
                 continue
             rr = s.call(dict(id=idxs[0], prop=prop, batch=batch, seeds=[jobs[i]['seed'] for i in idxs]))
+            if all(r.get('harness_error') == 'harness_timeout' for r in rr.get('results') or [{}]):
+                # the watchdog of the run server fired (a machine-wide stall is indistinguishable from a hang at this
+                # point): once more, alone and with three times the time; a second timeout is reported as a harness error
+                rr = s.call(dict(id=idxs[0], prop=prop, batch=batch, seeds=[jobs[i]['seed'] for i in idxs], timeout_scale=3))
             if rr.get('harness_error') == 'server died':
                 for i in idxs:
                     results[i] = dict(rr)
